@@ -109,6 +109,26 @@ def check_config(ctx, F, tag, cfg):
     if F.data["target"].get("overflow_checks"):
         import intervals
         intervals.check_documented_domains(ctx, F, tag, "C17.R7")
+    # ---------------- R8 the rounding helpers compute what their documentation says, for every argument (A13: each body is
+    # evaluated over the residues of its argument and compared with the closed form; equal / refuted with a witness / not evaluable)
+    import residues
+    N_ = lambda x: x[:2] == ("param", 0)
+    c_ = lambda v: ("const", v)
+    forms = {
+        "bits::bytes_to_words": lambda N: ("bin", "Div", ("bin", "Add", N, c_(7)), c_(8)),
+        "bits::bits_to_words": lambda N: ("bin", "Div", ("bin", "Add", N, c_(63)), c_(64)),
+        "bits::words_to_bytes": lambda N: ("bin", "Mul", N, c_(8)),
+        "bits::words_to_bits": lambda N: ("bin", "Mul", N, c_(64)),
+        "bits::round_up_to_word_bytes": lambda N: ("bin", "Mul", ("bin", "Div", ("bin", "Add", N, c_(7)), c_(8)), c_(8)),
+        "bits::round_up_to_word_bits": lambda N: ("bin", "Mul", ("bin", "Div", ("bin", "Add", N, c_(63)), c_(64)), c_(64)),
+    }
+    for fn, want in forms.items():
+        if not F.has_body(fn):
+            continue
+        hb = F.body(fn)
+        r_, why = residues.agrees(F, hb.term_of_local(0), N_, want)
+        ctx.ob("C17.R8.rounding-helper-closed-form", fn + tag, loc(hb.raw["span"]), r_, "abstract-interpretation(residues)",
+               "%s(n) = %s; against the documented closed form: %s" % (fn.split("::")[-1], tstr(hb.term_of_local(0))[:70], why), positive=r_ is False)
     # ---------------- R6 reversal width
     hits, seen = reverse_shift_mismatches(F)
     ctx.ob("C17.R6.reverse-shift-width", "crate" + tag, "src/", not hits, "dataflow",
